@@ -31,7 +31,14 @@ claim("C03", "interprocedural slice/map ownership analysis over go/ssa (flow-sen
       "existing value, anywhere in the module (570 sinks). Covers every history at once because it is a property of each write site, not of a run. "
       "frozen's persistent maps/sets are trusted; mutation through Export() by a host program is outside.", NOTE, "DESIGN.md §3 C03")
 
-for pid in ["C02","C04","C05","C07","C09","C10","C11","C12","C13","C15","C16","C17","C18","C19","C20"]:
+claim("C19", "flag-fixed CFG reachability (dry-run purity and validation completeness), dominance of the dry pass, type-switch fall-through, guard-dominates-use on joined paths, unused-error-result scan",
+      "Decides the structural conditions of the two-pass writer: (R19a) every mutating filesystem call is unreachable when the dry-run flag is true; "
+      "(R19b) the real pass is dominated by the dry pass on the same arguments and runs only if it returned nil; (R19c) the kind switch over entry "
+      "contents ends in an error for unmatched kinds; (R19d) a rejecting test on the joined path dominates every use of it; (R19e) no error result in "
+      "out.go is dropped; (R19f) no description error and no validating callee is reachable only when the flag is false without a dry-side twin. "
+      "Byte contents, ifExists merge semantics and fault injection are not decided.", NOTE, "DESIGN.md §3 C19")
+
+for pid in ["C02","C04","C05","C07","C09","C10","C11","C12","C13","C15","C16","C17","C18","C20"]:
     na(pid, "check under construction in this session (see DESIGN.md §3); not claimed until its rules are registered")
 na("C14", "agreement of a hand-written array matcher with strings/bytes over all sequences is a relation between runtime values computed by "
           "loops with data-dependent indices; no sound structural clause with teeth exists (DESIGN.md §3 C14)")
